@@ -12,7 +12,10 @@ pub mod c09;
 pub mod c13;
 pub mod c15;
 pub mod c20;
+pub mod c10;
 pub mod c11;
+pub mod c16;
+pub mod c17;
 
 pub fn run(engine: &str, ctx: &Ctx, rep: &mut Report) -> bool {
     match engine {
@@ -29,8 +32,12 @@ pub fn run(engine: &str, ctx: &Ctx, rep: &mut Report) -> bool {
         "c14" => c13::run_c14(ctx, rep),
         "c15" => c15::run(ctx, rep),
         "c20" => c20::run(ctx, rep),
+        "c10" => c10::run(ctx, rep),
         "c11" => c11::run_c11(ctx, rep),
         "c12" => c11::run_c12(ctx, rep),
+        "c16" => c16::run(ctx, rep),
+        "c17" => c17::run_c17(ctx, rep),
+        "c19" => c17::run_c19(ctx, rep),
         _ => return false,
     }
     true
